@@ -43,4 +43,23 @@ Pipeline(h, p) ==
   ELSE [result |-> "err", code |-> 400, handler_ran |-> TRUE]                          \* the handler's own status
 PipeRows == {[handler |-> h, payload |-> p, expect |-> Pipeline(h, p)] : h \in Handler, p \in Payload}
 ASSUME PrintT(<<"TABLE", "codegen_pipeline", ToJson(PipeRows)>>)
+
+(* Message types whose encoding is empty or that accept "nothing": a payload is handed to the   *)
+(* handler / returned to the typed caller iff the method's codec decodes it as the method's     *)
+(* type; bincode encodes a unit type in zero bytes, JSON never produces or accepts zero bytes   *)
+(* (null is four), an Option is one byte (bincode) or null / a value (JSON).                    *)
+Codecs == {"bincode", "json"}
+Kinds == {"unit", "option"}
+Payloads == {"good", "empty", "garbage"}
+Decodable(codec, kind, payload) ==
+  CASE payload = "good" -> TRUE
+    \* bincode's default options ignore trailing bytes, so every byte string decodes as a unit;
+    \* for every other (codec, type) the garbage used (bad Option tag, broken JSON) does not decode
+    [] payload = "garbage" -> (codec = "bincode" /\ kind = "unit")
+    [] payload = "empty" -> (codec = "bincode" /\ kind = "unit")
+EdgeRows == {[codec |-> c, kind |-> k, payload |-> p, dir |-> d, decodable |-> Decodable(c, k, p)] :
+               c \in Codecs, k \in Kinds, p \in Payloads, d \in {"request", "response"}}
+(* the good encoding of a unit under bincode IS the empty payload: the two rows must agree *)
+ASSUME Decodable("bincode", "unit", "empty") = Decodable("bincode", "unit", "good")
+ASSUME PrintT(<<"TABLE", "codegen_edges", ToJson(EdgeRows)>>)
 =============================================================================
